@@ -131,9 +131,12 @@ def generate(run_seed, tier):
                                unscaled=r.random() < 0.6,
                                z=r.randrange(2, mc.p),
                                hash=r.choice(["sha1", "sha256", "synth8"])))
-    nthreads = r.choice([2, 2, 2, 3])
+    deep = tier == "thorough" and r.random() < 0.3
+    nthreads = r.choice([2, 2, 2, 3]) if not deep else r.choice([3, 3, 4])
     ro = core.rng(run_seed, "ops")
-    threads = [_gen_ops(ro, scen, mc, len(shared), ro.choice([1, 1, 2]))
+    threads = [_gen_ops(ro, scen, mc, len(shared),
+                        ro.choice([1, 1, 2]) if not deep
+                        else ro.choice([2, 3]))
                for _ in range(nthreads)]
     if scen == "keys2":
         # thread i mostly works with key i
@@ -154,7 +157,8 @@ def generate(run_seed, tier):
         cfg["fr"] = [rs.random() for _ in range(cfg["d"] - 1)]   # run length
     else:
         cfg["park_fr"] = [[rs.randrange(nthreads), rs.random()]
-                          for _ in range(rs.choice([1, 1, 2]))]
+                          for _ in range(rs.choice([1, 1, 2]) if not deep
+                                         else rs.choice([2, 3, 4]))]
     prog = dict(curve=cname, scen=scen, shared=shared, threads=threads,
                 gran=gran, sched=cfg)
     if r.random() < 0.2:
